@@ -156,7 +156,8 @@ Qed.
 Theorem move_assign_transfers0 r t s s' : Good s -> dom_op0 (s_arrs s) (ZAssignMove r t) ->
   step0 cfg (ZAssignMove r t) (reset_counts s) = Ok tt s' ->
   vget (abs_state s') r = vget (abs_state s) t /\ s_copies s' = 0 /\ Good s' /\
-  (forall q, q <> r -> nth_error (abs_state s') q = nth_error (abs_state s) q) /\ length (s_blocks s') = length (s_blocks s).
+  (forall q, q <> r -> nth_error (abs_state s') q = nth_error (abs_state s) q) /\
+  (c_pocma cfg = false -> length (s_blocks s') = length (s_blocks s)).
 Proof.
   intros G D H. pose proof (Good_reset cfg s G) as G0.
   assert (D0 : dom_op0 (s_arrs (reset_counts s)) (ZAssignMove r t)) by exact D.
@@ -165,15 +166,17 @@ Proof.
   split. { pose proof (moving_ncp cfg (ZAssignMove r t) Logic.I (reset_counts s)) as N. rewrite H in N. exact N. }
   split; [eapply step0_good; eauto|]. split.
   - intros q Hq. rewrite Ea. cbn [vstep0]. apply nth_vset_other; auto.
-  - (* no storage is acquired or released *)
-    destruct D as ((ar & Dr) & (at_ & Dt)). destruct G0 as (I & W & T).
+  - (* without allocator propagation no storage is acquired or released (with it: C10_rank0_move_assign_follows_pocma) *)
+    intros Hp. destruct D as ((ar & Dr) & (at_ & Dt)). destruct G0 as (I & W & T).
     destruct (live0_nth _ _ _ Dr) as [Nr Zr]. destruct (live0_nth _ _ _ Dt) as [Nt Zt].
-    cbn [step0] in H. open_get H. open_get H.
-    rewrite (get_live0 _ _ _ _ Hg Dr), (get_live0 _ _ _ _ Hg0 Dt) in *.
-    destruct (arr0_vals cfg rank_pos _ r ar I Nr Zr) as (b & c & Hb & _ & _ & _).
+    cbn [step0] in H.
     destruct (Nat.eqb_spec r t) as [->|Hne].
-    + inv H. reflexivity.
-    + destruct (arr0_vals cfg rank_pos _ t at_ I Nt Zt) as (b' & c' & Hb' & _ & _ & _).
+    + open_get H. inv H. reflexivity.
+    + unfold assign0 in H. rewrite Hp in H. open_get H. open_get H.
+      rewrite (get_live0 _ _ _ _ Hg Dr), (get_live0 _ _ _ _ Hg0 Dt) in *.
+      destruct (arr0_vals cfg rank_pos _ r ar I Nr Zr) as (b & c & Hb & _ & _ & _).
+      destruct (arr0_vals cfg rank_pos _ t at_ I Nt Zt) as (b' & c' & Hb' & _ & _ & _).
+      change (cells_of SMoveCell at_) with (one_cell at_ SMoveCell) in H.
       rewrite (assign_all_eq cfg ar b _ Zr Hb), (one_cell_eq at_ SMoveCell b' Zt Hb') in H.
       apply assign_one_inv in H. destruct H as ((_ & L & _) & _). exact L.
 Qed.
@@ -211,8 +214,6 @@ Theorem self_move_assign_noop0 r s s' : step0 cfg (ZAssignMove r r) s = Ok tt s'
 Proof.
   cbn [step0]. rewrite Nat.eqb_refl. intros H.
   unfold bind at 1 in H. destruct (get_arr r s) as [a s1|?|?] eqn:E; try discriminate.
-  apply get_arr_inv in E. destruct E as [-> _].
-  unfold bind at 1 in H. destruct (get_arr r s) as [a' s1|?|?] eqn:E; try discriminate.
   apply get_arr_inv in E. destruct E as [-> _]. inv H. reflexivity.
 Qed.
 
